@@ -103,6 +103,9 @@ GATESETS = {
     'cx_rz_sx': ['CNOT', 'RZ', 'SX'],
     'cz_u3_swap': ['CZ', 'U3', 'SWAP'],
     'cx_rz_rx': ['CNOT', 'RZ', 'RX'],
+    'cx_ry_rz': ['CNOT', 'RY', 'RZ'],
+    'cx_h_t': ['CNOT', 'H', 'T'],
+    'cx': ['CNOT'],
     'csum_vu1': ['CSUM', 'VU1'],          # the default qutrit gate set
 }
 
@@ -586,8 +589,9 @@ def parse_remote_exc(e):
     remote = txt.split('The above exception was the direct cause')[0]
     frames = re.findall(r'File "[^"]*?/bqskit/([^"]+)", line \d+, in (\w+)', remote)
     last = [ln for ln in remote.strip().split('\n') if re.match(r'^[A-Za-z_.]+(Error|Exception|Exit)\b', ln)]
-    frames = [f for f in frames if not f[0].startswith(('runtime/', 'compiler/compiler.py', 'compiler/task.py', 'compiler/workflow.py',
-                                                          'compiler/basepass.py', 'passes/control/ifthenelse.py'))] or frames
+    # the innermost frame inside a pass (control-flow passes aside); failing that, the innermost bqskit frame
+    inpass = [f for f in frames if f[0].startswith('passes/') and not f[0].startswith('passes/control/')]
+    frames = inpass or frames
     where = '%s:%s' % frames[-1] if frames else ''
     line = last[-1] if last else '%s: %s' % (type(e).__name__, str(e)[:200])
     line = re.sub(r'^(TypeError: )(?=AttributeError)', '', line)
